@@ -58,7 +58,7 @@ CLAIMED = {
   technique="static analysis: marked path exploration with outcome/branch facts, registry/case agreement, type rules on the cache entry",
   ref="§4 C16"),
  "C10": dict(
-  text="Structural clauses of delete correctness: inside a delete, tombstones are committed on every overlapping file (the error of the parallel apply is checked) before the cache range is removed and before the WAL delete entry is written, and the index is touched only after the file walk and the cache walk that cross out surviving series; level, series-file and TSI compactions are disabled before the first deleteSeriesRange on every path and re-enabled by a deferred call, and enableLevelCompactions restarts compactions only when no delete still holds them; WAL replay handles every WALEntry implementation; the inclusive range-overlap predicates equal their specification on every ordering of their operands; lock pairing inside the delete's closures; FileStore.Apply reports an error if any file's function failed; the reconciliation pass examines every file so a series with points left in a non-overlapping file stays listed; a delete covers every container of not-yet-filed points (Cache.store and the in-flight Cache.snapshot) or excludes cache snapshots while it runs.",
+  text="Structural clauses of delete correctness: inside a delete, tombstones are committed on every overlapping file (the error of the parallel apply is checked) before the cache range is removed and before the WAL delete entry is written, and the index is touched only after the file walk and the cache walk that cross out surviving series; level, series-file and TSI compactions are disabled before the first deleteSeriesRange on every path and re-enabled by a deferred call, and enableLevelCompactions restarts compactions only when no delete still holds them; WAL replay handles every WALEntry implementation; the inclusive range-overlap predicates equal their specification on every ordering of their operands; lock pairing inside the delete's closures; FileStore.Apply reports an error if any file's function failed; the reconciliation pass examines every file so a series with points left in a non-overlapping file stays listed; a delete covers every container of not-yet-filed points (Cache.store and the in-flight Cache.snapshot) or excludes cache snapshots while it runs; a tag value is listed only for a series that still exists (found that a TSI index kept listing the value of a dropped series, fixed in 185e5ef).",
   note="Does not decide exactness of Values.Exclude index arithmetic or the tombstone file format. One known finding (a delete overlapping an in-flight cache snapshot resurrects the deleted points) is listed in known_findings.json with a demonstration.",
   technique="static analysis: outcome/marker path exploration over go/cfg, registry agreement of the WAL entry family, exhaustive predicate evaluation over weak orderings, lock balance exploration",
   ref="§9 C10"),
